@@ -1,9 +1,213 @@
 import SodiumModel.Model.Secretstream
 import SodiumModel.Proofs.Utils
+import SodiumModel.Properties.C14
 /-
   Helper lemmas for C09 (secretstream).
 -/
 open Sodium Sodium.Model
 namespace Sodium
+
+/-! ### xorBytes -/
+
+theorem xorBytes_length : ∀ a b : Bytes, (xorBytes a b).length = min a.length b.length
+  | [], _ => by simp [xorBytes]
+  | _ :: _, [] => by simp [xorBytes]
+  | x :: xs, y :: ys => by simp [xorBytes, xorBytes_length xs ys, Nat.succ_min_succ]
+
+/-- XOR with the same keystream twice is the identity -/
+theorem xorBytes_cancel : ∀ a k : Bytes, a.length ≤ k.length → xorBytes (xorBytes a k) k = a
+  | [], _, _ => by simp [xorBytes]
+  | x :: xs, [], h => by simp at h
+  | x :: xs, y :: ys, h => by
+    have ih := xorBytes_cancel xs ys (by simpa using h)
+    simp [xorBytes, ih, UInt8.xor_assoc]
+
+/-! ### list splitting -/
+
+theorem split3 (a c t : Bytes) (n : Nat) (ha : a.length = 1) (hc : c.length = n) :
+    (a ++ c ++ t).take 1 = a ∧ ((a ++ c ++ t).drop 1).take n = c ∧ (a ++ c ++ t).drop (1 + n) = t := by
+  refine ⟨?_, ?_, ?_⟩
+  · rw [List.append_assoc, List.take_left' ha]
+  · rw [List.append_assoc, List.drop_left' ha, List.take_left' hc]
+  · rw [List.drop_left' (by simp [ha, hc])]
+
+/-! ### the tag block -/
+
+theorem block_roundtrip (tag : UInt8) (z ks : Bytes) (h : 1 ≤ ks.length) :
+    (xorBytes ((xorBytes (tag :: z) ks).take 1 ++ z) ks).headD 0 = tag ∧
+    (xorBytes (tag :: z) ks).take 1 ++ (xorBytes ((xorBytes (tag :: z) ks).take 1 ++ z) ks).drop 1
+      = xorBytes (tag :: z) ks := by
+  cases ks with
+  | nil => simp at h
+  | cons k0 kt => simp [xorBytes, UInt8.xor_assoc]
+
+theorem block_take1_length (tag : UInt8) (z ks : Bytes) (h : 1 ≤ ks.length) :
+    ((xorBytes (tag :: z) ks).take 1).length = 1 := by
+  cases ks with
+  | nil => simp at h
+  | cons k0 kt => simp [xorBytes]
+
+/-! ### state shapes -/
+namespace SSP
+open Sodium.Model.SS
+
+theorem counter_length (s : State) (h : s.nonce.length = 12) : (counter s).length = 4 := by
+  simp [counter, h]
+
+theorem inonce_length (s : State) (h : s.nonce.length = 12) : (inonce s).length = 8 := by
+  simp [inonce, h]
+
+theorem rekey_shape (P : Prims) (hks : ∀ k n ic len, (P.ks k n ic len).length = len) (s : State)
+    (hk : s.k.length = 32) (hn : s.nonce.length = 12) :
+    (rekey P s).k.length = 32 ∧ (rekey P s).nonce.length = 12 := by
+  have hi := inonce_length s hn
+  simp only [rekey]
+  constructor
+  · simp [xorBytes_length, hks, hk, hi]
+  · simp [xorBytes_length, hks, hk, hi]
+
+theorem advance_shape (P : Prims) (hks : ∀ k n ic len, (P.ks k n ic len).length = len) (s : State)
+    (hk : s.k.length = 32) (hn : s.nonce.length = 12) (mac : Bytes) (hm : mac.length = 16) (tag : UInt8) :
+    (advance P s mac tag).k.length = 32 ∧ (advance P s mac tag).nonce.length = 12 := by
+  have hi := inonce_length s hn
+  have hc := counter_length s hn
+  have h1 : (sodium_increment_generic (counter s) ++ xorBytes (inonce s) (mac.take 8)).length = 12 := by
+    simp [sodium_increment_generic, incLoop_length, xorBytes_length, hi, hc, hm]
+  simp only [advance]
+  split
+  · exact rekey_shape P hks _ hk h1
+  · exact ⟨hk, h1⟩
+
+theorem push_shape (P : Prims) (hks : ∀ k n ic len, (P.ks k n ic len).length = len)
+    (hmac : ∀ k d, (P.mac k d).length = 16) (s : State)
+    (hk : s.k.length = 32) (hn : s.nonce.length = 12) (m ad : Bytes) (tag : UInt8) :
+    (push P s m ad tag).1.k.length = 32 ∧ (push P s m ad tag).1.nonce.length = 12 :=
+  advance_shape P hks s hk hn _ (hmac _ _) tag
+
+/-! ### pull ∘ push -/
+
+theorem pull_push (P : Prims) (hks : ∀ k n ic len, (P.ks k n ic len).length = len)
+    (hmac : ∀ k d, (P.mac k d).length = 16) (s : State) (m ad : Bytes) (tag : UInt8) :
+    pull P s (push P s m ad tag).2 ad = .ok (push P s m ad tag).1 m tag := by
+  have hk1 : 1 ≤ (P.ks s.k s.nonce 1 64).length := by rw [hks]; omega
+  have hb1 := block_take1_length tag (zeros 63) (P.ks s.k s.nonce 1 64) hk1
+  obtain ⟨hr1, hr2⟩ := block_roundtrip tag (zeros 63) (P.ks s.k s.nonce 1 64) hk1
+  have hc : (xorBytes m (P.ks s.k s.nonce 2 m.length)).length = m.length := by
+    simp [xorBytes_length, hks]
+  have hdec : xorBytes (xorBytes m (P.ks s.k s.nonce 2 m.length)) (P.ks s.k s.nonce 2 m.length) = m :=
+    xorBytes_cancel _ _ (by rw [hks]; omega)
+  simp only [push]
+  generalize hblock : xorBytes (tag :: zeros 63) (P.ks s.k s.nonce 1 64) = block at *
+  generalize hcc : xorBytes m (P.ks s.k s.nonce 2 m.length) = c at *
+  generalize hmm : P.mac (List.take 32 (P.ks s.k s.nonce 0 64)) (macInput ad block c) = mac
+  have hml : mac.length = 16 := by rw [← hmm]; exact hmac _ _
+  obtain ⟨h1, h2, h3⟩ := split3 (block.take 1) c mac m.length hb1 hc
+  have hlen : (block.take 1 ++ c ++ mac).length - 17 = m.length := by
+    simp only [List.length_append, hb1, hc, hml]; omega
+  have hlt : ¬ (block.take 1 ++ c ++ mac).length < 17 := by
+    simp only [List.length_append, hb1, hc, hml]; omega
+  unfold pull
+  rw [if_neg hlt]
+  simp only [hlen, h1, h2, h3, hr1, hr2, hmm, hdec]
+  rw [C14.memcmp_exact mac mac rfl]
+  simp
+
+/-! ### acceptance -/
+
+theorem pull_accept_mac (P : Prims) (hmac : ∀ k d, (P.mac k d).length = 16) (s s' : State)
+    (inp ad m : Bytes) (tag : UInt8) (h : pull P s inp ad = .ok s' m tag) :
+    17 ≤ inp.length ∧
+    inp.drop (inp.length - 16) =
+      P.mac ((P.ks s.k s.nonce 0 64).take 32)
+        (macInput ad (inp.take 1 ++ (xorBytes (inp.take 1 ++ zeros 63) (P.ks s.k s.nonce 1 64)).drop 1)
+          ((inp.drop 1).take (inp.length - 17))) := by
+  unfold pull at h
+  split at h
+  · cases h
+  · rename_i hlen
+    simp only [] at h
+    split at h
+    · cases h
+    · rename_i hcmp
+      refine ⟨by omega, ?_⟩
+      have he : 1 + (inp.length - 17) = inp.length - 16 := by omega
+      rw [he] at hcmp
+      rw [C14.memcmp_exact _ _ (by rw [hmac, List.length_drop]; omega)] at hcmp
+      split at hcmp
+      · rename_i heq; exact heq.symm
+      · exact absurd (by decide) hcmp
+
+/-! ### MAC input encoding -/
+
+theorem toLE8_inj (a b : Nat) (ha : a < 2 ^ 64) (hb : b < 2 ^ 64) (h : toLE 8 a = toLE 8 b) : a = b := by
+  have := congrArg le h
+  rw [le_toLE, le_toLE] at this
+  omega
+
+theorem macInput_injective (ad ad' b b' c c' : Bytes) (hb : b.length = 64) (hb' : b'.length = 64)
+    (hl : ad.length < 2 ^ 64 ∧ ad'.length < 2 ^ 64 ∧ c.length < 2 ^ 64 - 64 ∧ c'.length < 2 ^ 64 - 64)
+    (h : macInput ad b c = macInput ad' b' c') : ad = ad' ∧ b = b' ∧ c = c' := by
+  obtain ⟨h1, h2, h3, h4⟩ := hl
+  simp only [macInput] at h
+  obtain ⟨h, hc⟩ := List.append_inj' h (by simp [toLE_length])
+  obtain ⟨h, ha⟩ := List.append_inj' h (by simp [toLE_length])
+  have hal : ad.length = ad'.length := toLE8_inj _ _ h1 h2 ha
+  have hcl : c.length = c'.length := by
+    have := toLE8_inj _ _ (by omega) (by omega) hc
+    omega
+  rw [hal, hcl] at h
+  obtain ⟨h, _⟩ := List.append_inj' h rfl
+  obtain ⟨h, hc⟩ := List.append_inj' h hcl
+  obtain ⟨h, hb⟩ := List.append_inj' h (by omega)
+  obtain ⟨h, _⟩ := List.append_inj' h rfl
+  exact ⟨h, hb, hc⟩
+
+/-! ### counter arithmetic -/
+
+theorem increment4 (c : Bytes) (hc : c.length = 4) :
+    sodium_increment_generic c = toLE 4 ((le c + 1) % 2 ^ 32) := by
+  have h := C14.increment_generic_exact c
+  apply le_inj _ _ (by rw [h.1, hc, toLE_length])
+  rw [h.2, le_toLE, hc]
+  have : (le c + 1) % 2 ^ 32 < 2 ^ 32 := Nat.mod_lt _ (by decide)
+  omega
+
+theorem toLE4_zero_iff (v : Nat) (hv : v < 2 ^ 32) : toLE 4 v = zeros 4 ↔ v = 0 := by
+  constructor
+  · intro h
+    have := congrArg le h
+    rw [le_toLE] at this
+    have hz : le (zeros 4) = 0 := by decide
+    omega
+  · rintro rfl; decide
+
+theorem is_zero_toLE4 (v : Nat) (hv : v < 2 ^ 32) : sodium_is_zero (toLE 4 v) = 1 ↔ v = 0 := by
+  rw [C14.is_zero_exact, toLE_length, ← toLE4_zero_iff v hv]
+  split <;> simp [*]
+
+theorem advance_eq (P : Prims) (s : State) (hn : s.nonce.length = 12) (mac : Bytes) (tag : UInt8) :
+    advance P s mac tag =
+      let s1 : State := ⟨s.k, toLE 4 ((le (counter s) + 1) % 2 ^ 32) ++ xorBytes (inonce s) (mac.take 8)⟩
+      if (tag &&& 0x02) ≠ 0 ∨ (le (counter s) + 1) % 2 ^ 32 = 0 then SS.rekey P s1 else s1 := by
+  have hc := counter_length s hn
+  have hv : (le (counter s) + 1) % 2 ^ 32 < 2 ^ 32 := Nat.mod_lt _ (by decide)
+  simp only [advance, increment4 _ hc]
+  have hcnt : counter { k := s.k, nonce := toLE 4 ((le (counter s) + 1) % 2 ^ 32) ++ xorBytes (inonce s) (mac.take 8) }
+      = toLE 4 ((le (counter s) + 1) % 2 ^ 32) := by
+    simp only [counter]; rw [List.take_left' (toLE_length _ _)]
+  rw [hcnt]
+  simp only [is_zero_toLE4 _ hv]
+
+theorem counter_wrap (P : Prims) (s : State) (hn : s.nonce.length = 12) (mac : Bytes) (tag : UInt8)
+    (hc : counter s = [0xff, 0xff, 0xff, 0xff]) :
+    advance P s mac tag = SS.rekey P ⟨s.k, zeros 4 ++ xorBytes (inonce s) (mac.take 8)⟩ := by
+  have hle : (le (counter s) + 1) % 2 ^ 32 = 0 := by rw [hc]; decide
+  rw [advance_eq P s hn mac tag]
+  simp only [hle, or_true, if_true]
+  rfl
+
+theorem counter_rekey (P : Prims) (s : State) : counter (SS.rekey P s) = [1, 0, 0, 0] := rfl
+
+end SSP
 
 end Sodium
